@@ -28,6 +28,14 @@ type FilterPlan struct {
 	// Family names the workload family of a plan that does not come from
 	// FilterPlanFromSeed ("" = the original families); see multicp.go.
 	Family string `json:",omitempty"`
+	// BlockFault scripts failures of the block download (GetBlock) during the
+	// session; the zero value = every download succeeds. See blockfail.go.
+	BlockFault BlockFault `json:",omitzero"`
+	// SnapOmit: every omit-script lie is moved, once the chain exists, to the
+	// nearest height at or above the configured one (wrapping round) whose
+	// block has an output script a filter can provably omit; the liars that
+	// shared a height still share one.
+	SnapOmit bool `json:",omitempty"`
 }
 
 // PeerBehaviour describes one scripted peer of a filter session.
@@ -65,6 +73,9 @@ type FilterSession struct {
 	// hard-coded checkpoint / that did so while agreeing with the NEWEST
 	// hard-coded checkpoint they cover.
 	CPListsContradicting, CPListsOlderOnly int
+	// Measured (see runFilterSession): per round, the number of scripted
+	// failures of the block download (see blockfail.go).
+	RoundBlockFails []int
 	// gate, when set, replaces the immediate installation of the hard-coded
 	// checkpoints (see RunMultiCPFilter).
 	gate func(install func())
